@@ -82,6 +82,13 @@ type Opt struct{ On bool }
 
 func Baz() int { return 6 }
 `},
+	// a path element that merely ends in "vendor" (as github.com/kardianos/govendor/...): not a vendor directory
+	{Key: "G", ImportPath: "ex.com/govendor/ctx", PkgPath: "ex.com/govendor/ctx", Name: "ctx", Src: `package ctx
+
+func With(n int) int { return n }
+
+type Key struct{ N int }
+`},
 }
 
 // Snippet is a declaration that uses some libraries. Q(key) is replaced by the qualifier the file
@@ -102,6 +109,7 @@ var Snippets = []Snippet{
 	{[]string{"D"}, "func d${N}() int {\n\tv := ${D}DotT{A: ${D}DotV}\n\treturn ${D}DotF() + v.A\n}"},
 	{[]string{"E"}, "func e${N}() int {\n\to := ${E}Opt{On: true}\n\t_ = o\n\treturn ${E}Bar()\n}"},
 	{[]string{"F"}, "func f${N}() int {\n\treturn ${F}Baz()\n}"},
+	{[]string{"G"}, "func g${N}() int {\n\tk := ${G}Key{N: 1}\n\treturn ${G}With(k.N)\n}"},
 	{[]string{"A", "B"}, "func ab${N}() int {\n\treturn ${A}F(${B}F2())\n}"},
 	{[]string{"A", "C"}, "var ac${N} = map[${C}K]${A}T{${C}One: {X: 1}}"},
 	{nil, "func local${N}() int {\n\tx := len(\"abc\")\n\tvar y int = x\nL:\n\tfor y > 0 {\n\t\ty--\n\t\tcontinue L\n\t}\n\treturn y + helper()\n}"},
